@@ -9,6 +9,8 @@ and write it as Lean data (lean/Rbql/Generated/SharedState.lean), regenerated on
                        exec() are parsed too, after placeholder substitution)
  classLevelMutable   : class attributes bound to a mutable value in a class body
  mutableDefaults     : functions with a mutable default argument
+ sharedInstancesUsed : module-level names bound to an INSTANCE of a class defined in the module (an object with attributes,
+                       hence mutable state) that code reachable from query() refers to — e.g. a shared number handler
 """
 import ast
 import os
@@ -66,6 +68,8 @@ class FuncInfo(object):
 
 def analyse_body(info):
     for n in ast.walk(info.node):
+        if isinstance(n, ast.Name) and isinstance(n.ctx, ast.Load):
+            info.calls.add(n.id)        # a function or class passed around by name (init_aggregator(AvgAggregator, …)) is reachable too
         if isinstance(n, ast.Global):
             info.global_decls.update(n.names)
         elif isinstance(n, ast.Call):
@@ -103,11 +107,17 @@ def scan(path):
         analyse_body(info)
         funcs.setdefault(name, []).append(info)
 
+    class_names = set(n.name for n in tree.body if isinstance(n, ast.ClassDef))
+    module_instances = []
     for node in tree.body:
         if isinstance(node, ast.Assign) and is_mutable_value(node.value):
             for t in node.targets:
                 if isinstance(t, ast.Name):
                     module_mutable.append(t.id)
+        if isinstance(node, ast.Assign) and isinstance(node.value, ast.Call) and isinstance(node.value.func, ast.Name) and node.value.func.id in class_names:
+            for t in node.targets:
+                if isinstance(t, ast.Name):
+                    module_instances.append(t.id)
     for node in ast.walk(tree):
         if isinstance(node, (ast.FunctionDef, ast.AsyncFunctionDef)):
             add_func(node.name, node)
@@ -159,7 +169,14 @@ def scan(path):
             for nm in i.mutations:
                 if nm in module_mutable and nm not in i.stores:      # a local of the same name shadows the module-level one
                     written.add(nm)
-    return {'moduleLevelMutable': sorted(set(module_mutable)), 'globalsDeclared': sorted(global_names), 'writtenOnQueryPath': sorted(written),
+    # module-level instances referred to (loaded) by reachable code: every method call on them may change shared state
+    used_instances = set()
+    for f in reach:
+        for i in funcs.get(f, []):
+            for sub in ast.walk(i.node):
+                if isinstance(sub, ast.Name) and isinstance(sub.ctx, ast.Load) and sub.id in module_instances and sub.id not in i.stores:
+                    used_instances.add(sub.id)
+    return {'sharedInstancesUsed': sorted(used_instances), 'moduleLevelMutable': sorted(set(module_mutable)), 'globalsDeclared': sorted(global_names), 'writtenOnQueryPath': sorted(written),
             'classLevelMutable': sorted(set(class_mutable)), 'mutableDefaults': sorted(set(mutable_defaults)), 'reachable': sorted(reach)}
 
 
@@ -181,10 +198,12 @@ def writtenOnQueryPath : List String := %s
 def classLevelMutable : List String := %s
 /-- functions with a mutable default argument -/
 def mutableDefaults : List String := %s
+/-- module-level instances of module-defined classes referred to by code reachable from query() -/
+def sharedInstancesUsed : List String := %s
 
 end Rbql.Generated
 ''' % (src_path, lean_list(r['moduleLevelMutable']), lean_list(r['globalsDeclared']), lean_list(r['writtenOnQueryPath']),
-       lean_list(r['classLevelMutable']), lean_list(r['mutableDefaults']))
+       lean_list(r['classLevelMutable']), lean_list(r['mutableDefaults']), lean_list(r['sharedInstancesUsed']))
 
 
 if __name__ == '__main__':
